@@ -748,10 +748,32 @@ def p_where(I, n, pos, kw):
             on_v, off_v = on_diag(b), off_diag(a)
             if on_v is not None and off_v is not None:
                 return DiagMat(c.n, c.iv, on_v, off_v)
-    ca = arrays.binop(lambda x, y: sym.Expr(("pair", x, y)), a, b)
-    r = arrays.binop(lambda cc, ab: sym.ITE(cc, ab[1], ab[2]) if ab[0] == "pair" else sym.Opq("unmodelled:where", ()),
-                     c, ca)
+    # the two branches travel as the two arguments of one opaque node, so that every renaming of index variables done while
+    # the three operands are broadcast against each other reaches them too
+    ca = arrays.binop(lambda x, y: sym.Opq("$pair", (x, y), None), a, b)
+    r = arrays.binop(lambda cc, ab: sym.ITE(cc, ab[2][0], ab[2][1]) if (ab[0] == "opq" and ab[1] == "$pair")
+                     else sym.Opq("unmodelled:where", ()), c, ca)
     return r
+
+
+@prim("numpy.searchsorted")
+def p_searchsorted(I, n, pos, kw):
+    """position at which each value would be inserted into the sorted 1-d array: the number of entries below it (side='left')
+    or not above it (side='right')"""
+    a = pos[0] if isinstance(pos[0], Arr) else arrays.to_arr(pos[0])
+    v = pos[1]
+    side = _kw(kw, pos, "side", 2)
+    s_ = side.s if isinstance(side, StrV) else "left"
+    if not (isinstance(a, Arr) and a.ndim == 1) or s_ not in ("left", "right") or "sorter" in kw:
+        return I.unknown("searchsorted", n)
+    a = a.renamed()
+    sp, iv = a.axes[0]
+    op = "<" if s_ == "left" else "<="
+    I.event("searchsorted", n, table=a, values=v, side=s_)
+
+    def count(x):
+        return sym.Sum(iv, sp, sym.ITE(sym.Cmp(op, a.elem, x), sym.ONE, sym.ZERO))
+    return arrays.unop(count, v)
 
 
 @prim("numpy.clip")
@@ -775,6 +797,25 @@ def _reduction(op):
             if all(isinstance(x, Sc) for x in pos):
                 return Sc(_fold_minmax(I, op, [x.e for x in pos]))
             return I.unknown("builtin-" + op, n)
+        if t.startswith("builtins.") and op in ("max", "min") and isinstance(v, Seq) and "key" not in kw:
+            # max / min of a concrete sequence: empty -> the default; otherwise the extreme by decided comparisons
+            if not v.items:
+                if "default" in kw:
+                    return kw["default"]
+                I.event("raise", n, exc="ValueError")
+                return I.unknown("extreme-of-empty-sequence", n)
+            if all(isinstance(x, Sc) and x.e is not None for x in v.items):
+                best = v.items[0]
+                decided = True
+                for x in v.items[1:]:
+                    d_ = I.decide(sym.Cmp(">" if op == "max" else "<", x.e, best.e))
+                    if d_ is None:
+                        decided = False
+                        break
+                    if d_:
+                        best = x
+                if decided:
+                    return best
         axis = _kw(kw, pos, "axis", 1) if not t.startswith("builtins.") else None
         I.event("reduce", n, op=op, arg=v, axis=axis)
         if "key" in kw:
